@@ -11,6 +11,7 @@ import (
 	"os"
 	"os/exec"
 	"path/filepath"
+	"sort"
 	"strings"
 
 	"verif/pkg/instrument"
@@ -153,6 +154,55 @@ func (w *Work) InstrumentRepo(pkgs map[string]instrument.Options) error {
 	}
 	// deterministic order
 	order := []string{"iohelp", "internal/importgraph", ".", "main/bebopc-go", "main/bebopfmt"}
+	// the seams have to cover whatever package the code lives in, also one that a change
+	// to the repository adds: every other package of the module (no testdata, no hidden or
+	// underscore directories) is rewritten too
+	if _, hasRoot := pkgs["."]; hasRoot {
+		pkgs2 := map[string]instrument.Options{}
+		for k, v := range pkgs {
+			pkgs2[k] = v
+		}
+		var extra []string
+		filepath.WalkDir(w.Repo, func(path string, d os.DirEntry, err error) error {
+			if err != nil || !d.IsDir() {
+				return nil
+			}
+			name := d.Name()
+			if path != w.Repo && (name == "testdata" || name == "vendor" || strings.HasPrefix(name, ".") || strings.HasPrefix(name, "_")) {
+				return filepath.SkipDir
+			}
+			rel, _ := filepath.Rel(w.Repo, path)
+			rel = filepath.ToSlash(rel)
+			if _, listed := pkgs[rel]; listed {
+				return nil
+			}
+			ents, _ := os.ReadDir(path)
+			for _, e := range ents {
+				if n := e.Name(); strings.HasSuffix(n, ".go") && !strings.HasSuffix(n, "_test.go") {
+					extra = append(extra, rel)
+					break
+				}
+			}
+			return nil
+		})
+		sort.Strings(extra)
+		// (the union of what the listed packages get: a new package may hold runtime
+		// helpers, file handling or parser code)
+		var all instrument.Options
+		for _, o := range pkgs {
+			all.MapOrder = all.MapOrder || o.MapOrder
+			all.Alloc = all.Alloc || o.Alloc
+			all.Step = all.Step || o.Step
+			all.Yield = all.Yield || o.Yield
+			all.OSShim = all.OSShim || o.OSShim
+			all.Sync = all.Sync || o.Sync
+		}
+		for _, rel := range extra {
+			pkgs2[rel] = all
+		}
+		order = append(extra, order...)
+		pkgs = pkgs2
+	}
 	seen := map[string]bool{}
 	for _, rel := range order {
 		opts, ok := pkgs[rel]
